@@ -22,6 +22,7 @@ func init() {
 	register("kf.C05-a", kfC05a)
 	register("kf.C09-e.sysc", kfC09eSysc)
 	register("kf.C09-b.sysc", kfC09bSysc)
+	register("kf.C08-c", kfC08c)
 }
 
 var syscMu sync.Mutex
@@ -263,6 +264,21 @@ func kfC09bSysc(g *hx.Gen, id int) hx.Case {
 	return syscRun("kf.C09-b.sysc", id, 0, ops)
 }
 
+// C08-c witnesses: force_revalidate rule, stored entry past the forced lifetime but inside its stale-if-error
+// allowance, origin failing: cache.Get switches skipRevalidate off whenever force_revalidate is set, so the
+// stale-if-error re-entry revalidates again, fails again, re-enters again ... without bound
+func kfC08c(g *hx.Gen, id int) hx.Case {
+	syscMu.Lock()
+	defer syscMu.Unlock()
+	st := []int{500, 503, 404}[id%3]
+	p := "kf8c" + hx.I(id)
+	ops := []scOp{{kind: 'O', path: p, status: 200, hdr: [][2]string{{"Cache-Control", "max-age=60, stale-if-error=300"}, {"ETag", "\"e1\""}}, body: []byte("body-" + p + "-v1"), rerr: -1},
+		{kind: 'R', method: "GET", path: p}, {kind: 'T', dt: 20 + id},
+		{kind: 'O', path: p, status: st, hdr: [][2]string{{"Cache-Control", "max-age=5"}}, body: []byte("error-" + p), rerr: -1},
+		{kind: 'R', method: "GET", path: p}, {kind: 'R', method: "GET", path: p}}
+	return syscRun("kf.C08-c", id, 20, ops)
+}
+
 func syscRun(stream string, id int, force int, ops []scOp) hx.Case {
 	in := []string{hx.I(force), hx.I(len(ops))}
 	for _, o := range ops {
@@ -298,6 +314,8 @@ func syscRun(stream string, id int, force int, ops []scOp) hx.Case {
 		if err != nil {
 			return []string{"err:rules"}
 		}
+		// every history starts at the same instant (the model starts there too: Expires is absolute)
+		w.SetNow(1700000000)
 		verifhook.SetClock(func() int64 { return w.NowUnix() })
 		defer verifhook.SetClock(nil)
 		w.Configure(rules, &config.Config{RetryTimes: []int{}})
